@@ -22,7 +22,8 @@ PROP = "C19"
 
 MQ_INVS = ["InvAccounted", "InvReach", "InvNoPhantom", "InvSubscribed", "InvRedeliver", "InvFirstOrder",
            "InvLimit", "InvAfterAck", "InvShape"]
-MQ_DEVS = {"stale_now_after_yield": "InvReach", "requeue_at_limit": "InvLimit", "poll_lifo": "InvFirstOrder",
+MQ_DEVS = {"stale_now_after_yield": "InvReach", "settle_leaves_pending_id": "InvAccounted",
+           "requeue_at_limit": "InvLimit", "poll_lifo": "InvFirstOrder",
            "reject_forgets_requeue": "InvAccounted", "ack_keeps_message": "InvAfterAck",
            "unsubscribe_ignored": "InvSubscribed", "timer_dropped": "InvRedeliver"}
 TP_INVS = ["InvAtMostOnce", "InvAllReached"]
@@ -42,9 +43,11 @@ AS_DEVS = {"range_drops_remainder": "InvRange", "sticky_keeps_departed": "InvSti
 # defects (a delivery event dropped by the engine because it carries the pre-latency instant) as a clause of
 # its own; every other failing clause gets the key "<family>:<clause>".
 SIGNATURE_KEYS = {("mq", "delivery_discarded_stale_stamp"): "mq_delivery_event_stamped_pre_latency",
+                  ("mq", "settled_message_left_in_pending"): "mq_settled_message_left_in_pending",
                   ("topic", "topic_delivery_discarded_stale_stamp"): "topic_delivery_event_stamped_pre_latency"}
 # deviations of the implementation-shaped models that describe the code as it is (open known findings)
-MODEL_DEVS = {"mq": {"stale_now_after_yield"}, "topic": {"stale_now_after_yield"}, "stream": set()}
+MODEL_DEVS = {"mq": {"stale_now_after_yield", "settle_leaves_pending_id"}, "topic": {"stale_now_after_yield"},
+              "stream": set()}
 TRACE_MODULE = {"mq": "MQueueTrace.tla", "topic": "TopicTrace.tla", "stream": "StreamTrace.tla"}
 DRIVER = {"mq": MQ, "topic": TP, "stream": ST}
 TICKS = (10**6, 10**9, 10**3)
@@ -121,7 +124,7 @@ def jobs_for(tier, seed=0):
                   "stream clean sticky size", "assign clean"}
     keep_dump = {"mq tour lat0", "mq tour lat1", "topic tour lat0", "stream tour"}
     devs = [j for j in J if j.kind == "dev"]
-    real = [j for j in devs if "stale_now_after_yield" in j.name]
+    real = [j for j in devs if "stale_now_after_yield" in j.name or "settle_leaves_pending_id" in j.name]
     rest = [j for j in devs if j not in real]
     pick = random.Random(seed).sample(rest, 4)
     out = []
@@ -168,7 +171,8 @@ def all_jobs(tier):
                  dot=True, fam="assign"))
     # --- sensitivity: each deviation alone must break its invariant -------------
     for d, inv in MQ_DEVS.items():
-        J.append(Job(f"mq dev {d}", "MQueueMC.tla", mq_consts(dev=[d]), MQ_INVS, "dev", expect=inv, workers=1))
+        J.append(Job(f"mq dev {d}", "MQueueMC.tla", mq_consts(dev=[d]), [inv] + [i for i in MQ_INVS if i != inv],
+                     "dev", expect=inv, workers=1))
     for d, inv in TP_DEVS.items():
         J.append(Job(f"topic dev {d}", "TopicMC.tla", tp_consts(dev=[d]), TP_INVS, "dev", expect=inv, workers=1))
     for d, (inv, kw) in ST_DEVS.items():
